@@ -29,6 +29,41 @@ ODD = ["cafe\u0301", "caf\u00e9", "\u212b", "\u00c5", "\uf900", "\u8c48", "", "a
        "007", "1e3", " 1", "1 ", "x" * 300, "Ab", "ab", "ab "]
 
 
+KNOWN_KEYS = {"type", "id", "appid", "side", "nameplate", "mailbox", "phase", "body", "mood", "ping", "client_version"}
+
+
+def learned_keys():
+    """message keys the CURRENT handler source reads beyond the documented ones (grey-box input generation: the
+    property quantifies over "arbitrary extra keys", and a key only matters if the code looks at it): every string
+    constant used as `msg[...]`, `msg.get(...)` or `... in msg` in server_websocket.py"""
+    import ast, os
+    path = os.path.join(WORLD.REPO_SRC, "wormhole_mailbox_server", "server_websocket.py")
+    keys = set()
+    try:
+        tree = ast.parse(open(path).read())
+    except Exception:
+        return []
+    def is_msg(n):
+        return isinstance(n, ast.Name) and n.id in ("msg", "message", "m", "command", "cmd")
+    for node in ast.walk(tree):
+        if isinstance(node, ast.Subscript) and is_msg(node.value):
+            sl = node.slice
+            if isinstance(sl, ast.Constant) and isinstance(sl.value, str):
+                keys.add(sl.value)
+        elif isinstance(node, ast.Call) and isinstance(node.func, ast.Attribute) and node.func.attr in ("get", "pop") \
+                and is_msg(node.func.value) and node.args and isinstance(node.args[0], ast.Constant) \
+                and isinstance(node.args[0].value, str):
+            keys.add(node.args[0].value)
+        elif isinstance(node, ast.Compare) and len(node.ops) == 1 and isinstance(node.ops[0], (ast.In, ast.NotIn)) \
+                and is_msg(node.comparators[0]) and isinstance(node.left, ast.Constant) and isinstance(node.left.value, str):
+            keys.add(node.left.value)
+    return sorted(keys - KNOWN_KEYS)
+
+
+LEARNED_KEYS = learned_keys()
+LEARNED_VALUES = [True, False, 0, 1, 1.5, -1, "x", "last-time", None, [], {}, 10 ** 12]
+
+
 class Profile(object):
     """knobs of a stream"""
     def __init__(self, **kw):
@@ -75,7 +110,20 @@ class Session(object):
         self.seed = seed
         self.cfg = cfg
         self.p = profile
-        self.w = WORLD.World(cfg, seed=seed)
+        # local time zone and start instant of the server process (profile.tz: list of (zone, start in epoch seconds);
+        # the case is picked by the seed): code that converts epoch seconds to local wall-clock time misbehaves
+        # around daylight-saving transitions only
+        self._old_tz = None
+        t0 = None
+        tzc = getattr(profile, "tz", None)
+        if tzc:
+            import os, time as _time
+            zone, start = tzc[seed % len(tzc)]
+            self._old_tz = os.environ.get("TZ", "")
+            os.environ["TZ"] = zone
+            _time.tzset()
+            t0 = start * WORLD.TPS + 3
+        self.w = WORLD.World(cfg, seed=seed, t0=t0)
         self.events = []
         self.obs = [self.w.observe()]
         self.lines = [T.encode_cfg(cfg, self.w.EXP, self.w.PERIOD, self.w.t0)]
@@ -87,6 +135,13 @@ class Session(object):
 
     def close(self):
         self.w.close()
+        if self._old_tz is not None:
+            import os, time as _time
+            if self._old_tz:
+                os.environ["TZ"] = self._old_tz
+            else:
+                os.environ.pop("TZ", None)
+            _time.tzset()
 
     # ---------------------------------------------------------------- running
     def emit(self, ev):
@@ -160,6 +215,11 @@ class Session(object):
         return r.choice(self.p.names)
 
     def extra_keys(self, msg):
+        if LEARNED_KEYS and self.rng.random() < 0.35:
+            # a key the handlers of this source tree read although the protocol does not document it
+            k = self.rng.choice(LEARNED_KEYS)
+            if k not in msg:
+                msg[k] = self.rng.choice(LEARNED_VALUES)
         if self.rng.random() < 0.15:
             msg["x-" + self.rng.choice(["junk", "side", "appid"])] = self.rng.choice([1, "v", None, [1, 2], {"a": 1}])
         if self.rng.random() < 0.3 and "id" not in msg:
